@@ -294,7 +294,7 @@ def strat_composite():
         start = draw(st.integers(0, n_data - d))
         sub = chain[2 * start: 2 * start + 2 * d - 1]
         edges = [[sub[i], sub[i + 1]] for i in range(len(sub) - 1)]
-        n_ex = draw(st.integers(0, min(3, len(edges))))
+        n_ex = min(len(edges), draw(st.sampled_from([0, 1, 1, 2, 2, 3])))
         ex_edges = [edges[i] for i in sorted(draw(st.lists(st.integers(0, len(edges) - 1), min_size=n_ex, max_size=n_ex, unique=True)))]
         ex_qubits = [draw(st.sampled_from(sub[1::2]))] if draw(st.integers(0, 3)) == 0 else []
         case = {"ctor": draw(st.sampled_from(["full", "full", "simplified"])), "desc": "composite",
@@ -369,7 +369,7 @@ def parts():
         Part("repcode_full", body, strategy=strat_full, quick=70, thorough=450),
         Part("repcode_full_large", body, strategy=strat_full_large, quick=0, thorough=60),
         Part("repcode_simplified", body, strategy=strat_simplified, quick=80, thorough=600),
-        Part("repcode_composite", body, strategy=strat_composite, quick=70, thorough=400),
+        Part("repcode_composite", body, strategy=strat_composite, quick=110, thorough=500),
         Part("multi_round", body, strategy=strat_multi, quick=20, thorough=100),
         Part("calibration", body, strategy=strat_calibration, quick=120, thorough=800),
     ]
